@@ -94,7 +94,7 @@ def write_replay(prop, f):
     return p
 
 
-def check(prop, tier):
+def check(prop, tier, only_key=None):
     t0 = time.time()
     seed = int(os.environ.get('VERIF_SEED', '0'))
     results, err, info, crates = ([], None, {'dropped': []}, {})
@@ -186,6 +186,8 @@ def check(prop, tier):
     samples = samples + gsamples[:3]
     new, hit = [], []
     seen_keys = {}
+    if only_key is not None:
+        findings = [f for f in findings if f['key'] == only_key]
     for f in findings:
         if f['key'] in seen_keys:
             seen_keys[f['key']]['instances'] = seen_keys[f['key']].get('instances', 1) + 1
@@ -233,14 +235,42 @@ def check(prop, tier):
     return rc
 
 
+def replay(path):
+    """re-decides the finding recorded in a replay file on the current tree: exit 1 if it is still reported"""
+    f = json.load(open(path))
+    prop = f['prop']
+    print(f'replay {path}\n  property={prop} rule={f["rule"]}\n  declaration/site: {f["decl_key"]}\n  finding: {f["what"]}')
+    os.environ['VERIF_NO_EVIDENCE'] = '1'
+    import io
+    import contextlib
+    buf = io.StringIO()
+    with contextlib.redirect_stdout(buf):
+        rc = check(prop, os.environ.get('VERIF_TIER', 'quick'), only_key=f['key'])
+    out = buf.getvalue()
+    if rc == 1:
+        print('  -> still reported on the current tree:')
+        print('\n'.join('     ' + l for l in out.split('\n') if l.strip())[:3000])
+        print(f'VIOLATION property={prop} replay={path}')
+        return 1
+    if rc == 0:
+        print('  -> not reported on the current tree (holds, or is a listed known finding)')
+        return 0
+    print(out)
+    return rc
+
+
 def main(argv=None):
     ap = argparse.ArgumentParser()
     sub = ap.add_subparsers(dest='cmd')
     c = sub.add_parser('check')
     c.add_argument('prop')
     c.add_argument('--tier', default=os.environ.get('VERIF_TIER', 'quick'))
+    r = sub.add_parser('replay')
+    r.add_argument('path')
     a = ap.parse_args(argv)
     if a.cmd == 'check':
         return check(a.prop, a.tier)
+    if a.cmd == 'replay':
+        return replay(a.path)
     ap.print_help()
     return 2
